@@ -768,6 +768,9 @@ def r9_iovec_wrappers(r, facts):
             stores = {}
             for loc, s_ in f.assigns():
                 fl = [p_.get('name') for p_ in s_['lhs']['p'] if p_['k'] == 'field']
+                if not fl and s_['lhs']['p'] and s_['lhs']['p'][-1]['k'] == 'deref':
+                    # a store through a reference to the field (`let iovec { iov_base, iov_len } = &mut self.0; *iov_len -= n`)
+                    fl = [fam.last_field(eb.place(s_['lhs']))]
                 if fl[-1:] in (['iov_len'], ['iov_base']) and not f.blocks[loc[0]]['cleanup']:
                     stores.setdefault(fl[-1], []).append((loc, eb.rvalue(s_['rv'])))
             if meth == 'set_len':
@@ -860,9 +863,11 @@ def r10_init_bookkeeping(r, facts):
 
 def r11_limit_walk(r, facts):
     """LimitedBuf::as_iovecs[_mut]: the limit is distributed over the iovecs front to back.  The count of bytes still allowed
-    is a local initialised from `self.limit`; an element that fits (`len <= left`) takes its length off the count; the
-    first that does not is trimmed to the count (`set_len(left)`) and the count becomes 0 (so every later element is trimmed
-    to nothing).  Without the decrement every element may take the full limit: the kernel is allowed limit x N bytes."""
+    is a local initialised from `self.limit`; inside the walk it is decreased by something derived from the element's length
+    (`left -= len`, `left.checked_sub(len)`, `left -= min(len, left)`); an element is trimmed to a value derived from the count
+    (`set_len(left)`, `set_len(min(len, left))`).  In the plain spelling (`if len <= left { left -= len } else { set_len(left);
+    left = 0 }`) the decrement must lie on the "fits" edge and the count must become 0 after the trimmed element.  Without the
+    decrement every element may take the full limit: the kernel is allowed limit x N bytes."""
     n_w = 0
     for trait, meth in (('io::traits::BufSlice', 'as_iovecs'), ('io::traits::BufMutSlice', 'as_iovecs_mut')):
         for i, f in facts.impl_fns(trait, meth):
@@ -879,39 +884,54 @@ def r11_limit_walk(r, facts):
                 while e[0] == 'cast':
                     e = e[4]
                 return e[0] == 'local' and e[1] == R
+            has_r = lambda e: any(is_r(x) for x in subexprs(e))
+            has_len = lambda e: any(x[0] == 'call' and x[1].endswith('Slice::len') for x in subexprs(e))
             trims = [(loc, t) for loc, t in f.calls() if (t.get('callee') or '').endswith('Slice::set_len') and not f.blocks[loc[0]]['cleanup']]
             if not r.require(len(trims) >= 1, '%s/walk/trim' % name, 'no element is ever trimmed (set_len)', f.where()):
                 continue
             loc, t = trims[0]
             r.inst('%s: limit walk with count _%d' % (name, R), f.where(loc))
-            r.require(is_r(eg.operand(t['args'][1])), '%s/walk/trim-value' % name, 'the element that does not fit is trimmed to %s, not to what is left of the limit' % (eg.operand(t['args'][1]),), f.where(loc))
+            tv = eg.operand(t['args'][1])
+            if not has_r(tv):
+                # the count taken out through a reference (`Some(mem::replace(left, 0))` in a helper): the value of the count
+                tvp = ExprBuilder(f, multi='phi').operand(t['args'][1])
+                if any(x[0] == 'call' and x[1] in ('std::mem::replace', 'std::mem::take') and any(y[0] == 'local' and y[1] == R for y in subexprs(x)) for x in subexprs(tvp)) \
+                        or has_r(tvp) or any(fam.last_field(x) == 'limit' for x in subexprs(tvp)):
+                    tv = ('local', R, 'taken')
+            r.require(has_r(tv), '%s/walk/trim-value' % name, 'the element that does not fit is trimmed to %s, which does not depend on what is left of the limit' % (str(tv)[:120],), f.where(loc))
             fits_e = trim_e = None
             for (b, tgt) in c10.controlling_switches(f, loc):
                 e = eg.operand(f.term(b)['discr'])
-                if e[0] == 'bin' and e[1] in ('Le', 'Gt', 'Lt', 'Ge') and (is_r(e[2]) != is_r(e[3])):
+                if e[0] == 'bin' and e[1] in ('Le', 'Gt', 'Lt', 'Ge') and (is_r(e[2]) != is_r(e[3])) and has_len(e):
                     others = [x for x in set(f.succ[b]) if x != tgt]
                     if len(others) == 1:
                         fits_e, trim_e = (b, others[0]), (b, tgt)
-            if not r.require(fits_e is not None, '%s/walk/test' % name, 'comparison of the element length with the count not found', f.where(loc)):
-                continue
-            dec = zero = False
+            nexts = [l for l, t2 in f.calls() if (t2.get('callee') or '') == 'std::iter::Iterator::next']
+            dec = dec_fits = zero = False
             for l, ee in getattr(f, 'counter_defs', {}).get(R, []):
                 while ee[0] == 'cast' or (ee[0] == 'proj' and ee[2] == ('.0',)):
                     ee = ee[4] if ee[0] == 'cast' else ee[1]
-                sub = (ee[0] == 'bin' and ee[1].startswith('Sub') and is_r(ee[2]) and ee[3]) or \
-                      (ee[0] == 'call' and ee[1].endswith(('saturating_sub', 'wrapping_sub')) and len(ee[2]) == 2 and is_r(ee[2][0]) and ee[2][1]) or None
-                if sub and f.edge_dominates(fits_e, Loc(*l)) and any(x[0] == 'call' and x[1].endswith('Slice::len') for x in subexprs(sub)):
+                sub = None
+                if ee[0] == 'bin' and ee[1].startswith('Sub') and is_r(ee[2]):
+                    sub = ee[3]
+                elif ee[0] == 'call' and ee[1].endswith(('saturating_sub', 'wrapping_sub')) and len(ee[2]) == 2 and is_r(ee[2][0]):
+                    sub = ee[2][1]
+                elif ee[0] == 'proj' and '@Some' in ee[2] and ee[1][0] == 'call' and ee[1][1].endswith('checked_sub') and len(ee[1][2]) == 2 and is_r(ee[1][2][0]):
+                    sub = ee[1][2][1]
+                if sub is not None and has_len(sub) and (not nexts or any(f.dominates(nx, Loc(*l)) for nx in nexts)):
                     dec = True
-                if ee[0] == 'const' and ee[1] == 0 and f.edge_dominates(trim_e, Loc(*l)):
+                    if fits_e is not None and f.edge_dominates(fits_e, Loc(*l)):
+                        dec_fits = True
+                if ee[0] == 'const' and ee[1] == 0 and trim_e is not None and f.edge_dominates(trim_e, Loc(*l)):
                     zero = True
-            r.require(dec, '%s/walk/decrement' % name, 'an element that fits does not take its length off the count: every element may take the full limit (the kernel is allowed N times the limit)', f.where(f.term_loc(fits_e[0])))
-            # after the trimmed element nothing more is allowed: the count becomes 0, or the walk trims/ends explicitly
-            nexts = [l for l, t2 in f.calls() if (t2.get('callee') or '') == 'std::iter::Iterator::next']
-            ends = t.get('target') is not None and f.forward_paths_hit([Loc(t['target'], 0)], nexts) is None
-            r.require(zero or ends, '%s/walk/rest' % name, 'after the trimmed element the count is not set to 0 (and the walk goes on): later elements are allowed the same remainder again', f.where(loc))
+            r.require(dec, '%s/walk/decrement' % name, 'no element takes its length off the count: every element may take the full limit (the kernel is allowed N times the limit)', f.where(loc))
+            if fits_e is not None and dec:
+                # the plain spelling: decided per edge
+                r.require(dec_fits, '%s/walk/decrement' % name, 'the decrement by the element length is not on the edge on which the element fits', f.where(f.term_loc(fits_e[0])))
+                ends = t.get('target') is not None and f.forward_paths_hit([Loc(t['target'], 0)], nexts) is None
+                r.require(zero or ends, '%s/walk/rest' % name, 'after the trimmed element the count is not set to 0 (and the walk goes on): later elements are allowed the same remainder again', f.where(loc))
     r.require(n_w >= 2, 'limit-walk/sites', 'expected LimitedBuf::as_iovecs and as_iovecs_mut, found %d' % n_w)
     r.floor(2)
-
 
 
 def r12_boolean_summaries(r, facts):
